@@ -2,6 +2,7 @@ package vs
 
 import (
 	"os"
+	"sort"
 	"sync"
 	"sync/atomic"
 	"time"
@@ -379,4 +380,56 @@ func CompareAndSwapUint32(p *uint32, o, n uint32) bool {
 func CompareAndSwapUint64(p *uint64, o, n uint64) bool {
 	Point("acas", unsafe.Pointer(p))
 	return atomic.CompareAndSwapUint64(p, o, n)
+}
+
+// ---------------------------------------------------------------------------
+// maps: Go leaves the iteration order of a map unspecified (and randomises
+// it). Inside an execution the order must be owned: keys get an identity in
+// insertion order (MapSet), MapKeys lists them in that order rotated by an
+// explorer choice, so that every element can come first.
+
+func (s *sched) keyRank(k any) int {
+	if s.keyIdent == nil {
+		s.keyIdent = map[any]int{}
+	}
+	r, ok := s.keyIdent[k]
+	if !ok {
+		r = len(s.keyIdent)
+		s.keyIdent[k] = r
+	}
+	return r
+}
+
+// MapSet is the instrumented form of m[k] = v.
+func MapSet[K comparable, V any](m map[K]V, k K, v V) {
+	if s := S; s != nil && !s.abort {
+		s.keyRank(any(k))
+	}
+	m[k] = v
+}
+
+// MapKeys is used by the instrumented form of `for k := range m`.
+func MapKeys[K comparable, V any](m map[K]V) []K {
+	keys := make([]K, 0, len(m))
+	for k := range m {
+		keys = append(keys, k)
+	}
+	s := S
+	if s == nil || s.abort || len(keys) < 2 {
+		return keys
+	}
+	unknown := 0
+	for _, k := range keys {
+		if _, ok := s.keyIdent[any(k)]; !ok {
+			unknown++
+		}
+	}
+	if unknown > 1 {
+		panic("vs: map iterated with several keys that were not inserted through instrumented code: iteration order is not owned")
+	}
+	sort.Slice(keys, func(i, j int) bool { return s.keyRank(any(keys[i])) < s.keyRank(any(keys[j])) })
+	if r := Choose(len(keys)); r > 0 {
+		keys = append(append([]K{}, keys[r:]...), keys[:r]...)
+	}
+	return keys
 }
